@@ -76,7 +76,8 @@ OUTSIDE = [
 # Engine S
 # ======================================================================================================================
 NAMES = ["app1", "manifest", "yaml", "null", "secret", "yes", "a", "x-meta", "d-1e3", "json"]
-NN = B(4, 10)
+NN_Q, NN_T = 4, 10   # partitions are computed in the runner process, where B() always sees the quick tier: use the literals there
+NN = B(NN_Q, NN_T)
 KEYS = ["API_KEY", "yes", "1", "", "null", "a.b", "x y", ":"]
 NK = B(4, 8)
 VALS = ["secret123", "", "yes", "null", "line\nbreak", ": a", "1", " lead ", "#c", "'q'", "é\u0085", "- x", "{a: 1}", "2025-01-01"]
@@ -167,8 +168,8 @@ def _round_trip_ok(deployments, secrets, generations, gen_arg, pw) -> bool:
 
 
 @obligation(quick=200, thorough=900,
-            partitions_quick=[f"ni == {j}" for j in range(NN)],
-            partitions_thorough=[f"ni == {j}" for j in range(NN)],
+            partitions_quick=[f"ni == {j}" for j in range(NN_Q)],
+            partitions_thorough=[f"ni == {j}" for j in range(NN_T)],
             what="one deployment: read_backup_archive(create_backup_archive(x)) returns exactly the resource, secret and generation "
                  "that went in, under the same name (type-strict deep equality), password None or '' on both sides",
             bounds={"name": "NN of the pool (4 quick / 10 thorough)", "resource body": "NS JSON-like values (8 / 20), with / without labels+annotations",
@@ -204,7 +205,8 @@ NM = 5
 
 @obligation(quick=200, thorough=900,
             partitions_quick=["nd <= 1"] + [f"nd == 2 and n0 == {j}" for j in range(NM - 1)],
-            partitions_thorough=["nd <= 1", "nd == 2"] + [f"nd == 3 and n0 == {j} and s0 == {s}" for j in range(NM - 2) for s in range(3)],
+            partitions_thorough=["nd <= 1", "nd == 2", "nd == 3 and n0 == 2"] + [f"nd == 3 and n0 == 1 and s0 == {s}" for s in range(3)]
+            + [f"nd == 3 and n0 == 0 and s0 == {s} and s1 == {t}" for s in range(3) for t in range(3)],
             what="several deployments with pairwise distinct names: every entry comes back under its own name with its own resource, "
                  "secret and generation; nothing mixed up, nothing extra",
             bounds={"deployments": "0..ND (2 quick / 3 thorough)", "names": "increasing indices into 5 pool names",
